@@ -169,3 +169,20 @@ def reference_exhaustive(case, ctx):
     check_find_turns(sig, ctx)
     check_fourpoint(sig, ctx)
     check_fkm(sig, ctx)
+
+
+def decode_bytes(data, tier=None):
+    from .c01 import decode_bytes as d
+    case = d(data)
+    if case is None or len(case["signal"]) < 2:
+        return None
+    return {"signal": case["signal"]}
+
+
+@subcheck("C02", "reference_fuzz", fuzz=decode_bytes, quick=0, thorough=400000, crash_guard=True,
+          doc="coverage-guided (atheris/libFuzzer): bytes -> signal; all three detectors against the references")
+def reference_fuzz(case, ctx):
+    sig = case["signal"]
+    check_find_turns(sig, ctx)
+    check_fourpoint(sig, ctx)
+    check_fkm(sig, ctx)
